@@ -339,8 +339,30 @@ JudgeSameAsBulk(sp) ==
          ELSE IF sp.failed THEN {}                      \* the request itself failed: nothing to compare
          ELSE {"C16.Resolvable:" \o e.id}
 
+(***************************************************************************)
+(* C17: write_setting(id, v): one write, to the setting's own registers,   *)
+(* carrying the encoding of v; the value read back afterwards is v         *)
+(***************************************************************************)
+WriteData(p) == IF p.op = "write" THEN <<p.n \div 256, p.n % 256>> ELSE p.payload
+JudgeWrite(sp0, sp) ==
+    IF sp0.api # "write_setting" \/ sp0.entry = 0 \/ ~sp0.ok THEN {}
+    ELSE LET e == Tables[sp0.tab][sp0.entry]
+             old == IF Size(e.ty) = 1 \/ e.ty = "ByteL" THEN BytesAt(sp, e.addr, 2) ELSE <<>>
+             enc == Encode(e.ty, Par(e), sp0.wval, old)
+             ws == Writes(sp0)
+         IN IF enc = <<>> THEN {"INFO.notencodable"}
+            ELSE IF Cardinality(ws) # 1 THEN {"C17.OneWrite:" \o e.id}
+            ELSE LET r == sp0.resp[CHOOSE k \in ws : TRUE]
+                     p == Wr!ParseRequest(r.fr, Fr(r.req))
+                 IN (IF p.reg = e.addr /\ Len(WriteData(p)) = Len(enc) THEN {} ELSE {"C17.Address:" \o e.id})
+                    \cup (IF WriteData(p) = enc THEN {} ELSE {"C17.Encoding:" \o e.id})
+                    \cup (IF sp0.rb.k = "absent" THEN {}
+                          ELSE IF Decode(e.ty, Par(e), enc).k = "undecided" THEN {}
+                          ELSE IF ValEq(Decode(e.ty, Par(e), enc), sp0.rb) THEN {} ELSE {"C17.ReadBack:" \o e.id})
+
 Judge(sp0) ==
     LET sp == [sp0 EXCEPT !.resp = RespInfo(sp0)] IN
+    JudgeWrite(sp0, sp) \cup
     (IF sp.decode THEN (IF sp.single THEN JudgeSingle(sp) ELSE JudgeBulk(sp)) ELSE {})
     \cup JudgeWindow(sp) \cup JudgeKeys(sp) \cup JudgeReadOnly(sp0) \cup JudgeSameAsBulk(sp)
 
